@@ -799,3 +799,139 @@ pub fn raw_wire_cases(max_msgs: usize) -> Vec<(RtKind, Vec<usize>, usize, bool)>
     }
     v
 }
+
+// ------------------------------------------------------------------------------------------------
+// a raw peer that writes its frames and then goes away - in an orderly way (shutdown of its sending
+// side, close) or with data of ours still unread in its queue (the kernel then reports a reset to us
+// once, after the queued data) - before the zlink end has read anything: every frame it wrote must
+// still be received, intact and in order, before the end of the stream / the error is reported
+
+pub const GOODBYES: [&str; 3] = ["shuts down its sending side", "closes", "closes with data of ours unread"];
+pub const GOODBYE_SIZES: [usize; 4] = [9, 120, 300, 6000];
+
+fn goodbye_with<R: Rt>(sizes: &[usize], goodbye: usize, drop_write_half_first: bool) -> Result<u64, (String, String)> {
+    use std::io::Write;
+    let rt = R::new();
+    let (sa, mut peer) = small_pair(false);
+    peer.set_nonblocking(false).ok();
+    let conn: Connection<R::Sock> = Connection::new(rt.wrap(sa));
+    let (mut r, mut w) = conn.split();
+    let what = |d: String| format!("peer writes frames of {sizes:?} bytes and {}{}: {d}", GOODBYES[goodbye], if drop_write_half_first { " (our write half was dropped before)" } else { "" });
+    if goodbye == 2 {
+        // something of ours the peer will never read
+        let m = message(99, 40, 'z');
+        let mut fut: SendFut = Box::pin(unsafe { (*(&mut w as *mut WriteConnection<<R::Sock as Socket>::WriteHalf>)).send_call(&*(&m as *const Call<Pay>)) });
+        let mut guard = 0;
+        loop {
+            rt.turn();
+            match poll_once(fut.as_mut()) {
+                Poll::Ready(Ok(())) => break,
+                Poll::Ready(Err(e)) => return Err(("sockets:send-failed".into(), what(format!("{e:?}")))),
+                Poll::Pending => {
+                    guard += 1;
+                    if guard > 10_000 {
+                        return Err(("sockets:no-progress".into(), what("a 48-byte send never completed".into())));
+                    }
+                }
+            }
+        }
+    }
+    if drop_write_half_first {
+        // dropping one half of a split connection must not disturb the other
+        drop(w);
+    }
+    let msgs: Vec<Call<Pay>> = sizes.iter().enumerate().map(|(i, s)| message(i, *s, 'g')).collect();
+    for m in &msgs {
+        let mut f = serde_json::to_vec(m).unwrap();
+        f.push(0);
+        if let Err(e) = peer.write_all(&f) {
+            xplore::bug!("peer write: {e}");
+        }
+    }
+    match goodbye {
+        0 => {
+            let _ = peer.shutdown(std::net::Shutdown::Write);
+        }
+        _ => drop(peer),
+    }
+    // now the zlink end starts to read
+    let mut got: Vec<String> = Vec::new();
+    let mut end: Option<String> = None;
+    for _ in 0..msgs.len() + 1 {
+        let mut fut: RecvFut = Box::pin(unsafe { (*(&mut r as *mut ReadConnection<<R::Sock as Socket>::ReadHalf>)).receive_call::<Pay>() });
+        let mut guard = 0;
+        let res = loop {
+            rt.turn();
+            match poll_once(fut.as_mut()) {
+                Poll::Ready(x) => break Some(x),
+                Poll::Pending => {
+                    guard += 1;
+                    if guard > 20_000 {
+                        break None;
+                    }
+                }
+            }
+        };
+        drop(fut);
+        match res {
+            Some(Ok(c)) => got.push(c.method().x.clone()),
+            Some(Err(e)) => {
+                end = Some(format!("{e:?}"));
+                break;
+            }
+            None => {
+                end = Some("STALL".into());
+                break;
+            }
+        }
+    }
+    let want: Vec<String> = msgs.iter().map(|m| m.method().x.clone()).collect();
+    if got != want {
+        let class = if got.len() < want.len() && want.starts_with(&got) { "sockets:message-lost" } else { "sockets:corrupted-message-delivered" };
+        return Err((class.into(), what(format!("received {} of the {} frames ({:?}), then {}", got.len(), want.len(), got.iter().map(|g| g.len() + 8).collect::<Vec<_>>(), end.clone().unwrap_or_else(|| "nothing".into())))));
+    }
+    match end.as_deref() {
+        Some("STALL") => Err(("sockets:no-end-of-stream-after-the-peer-left".into(), what("all frames were received, then the receive never completed".into()))),
+        Some(_) => Ok(got.len() as u64),
+        None => Err(("sockets:message-fabricated".into(), what("one message more than the peer wrote".into()))),
+    }
+}
+
+pub fn goodbye_case(rt: RtKind, sizes: &[usize], goodbye: usize, drop_write_half_first: bool) -> Result<u64, (String, String)> {
+    match rt {
+        RtKind::Tokio => goodbye_with::<TokioRt>(sizes, goodbye, drop_write_half_first),
+        RtKind::Smol => goodbye_with::<SmolRt>(sizes, goodbye, drop_write_half_first),
+    }
+}
+
+/// (runtime, sizes, goodbye, write half dropped first) for every sequence of 1..=max frames.
+pub fn goodbye_cases(max: usize) -> Vec<(RtKind, Vec<usize>, usize, bool)> {
+    let mut seqs: Vec<Vec<usize>> = vec![vec![]];
+    let mut all: Vec<Vec<usize>> = vec![];
+    for _ in 0..max {
+        let mut next = vec![];
+        for s in &seqs {
+            for z in GOODBYE_SIZES {
+                let mut t = s.clone();
+                t.push(z);
+                next.push(t);
+            }
+        }
+        all.extend(next.iter().cloned());
+        seqs = next;
+    }
+    let mut v = Vec::new();
+    for rt in [RtKind::Tokio, RtKind::Smol] {
+        for s in &all {
+            for g in 0..GOODBYES.len() {
+                for d in [false, true] {
+                    if g == 2 && d {
+                        continue;
+                    }
+                    v.push((rt, s.clone(), g, d));
+                }
+            }
+        }
+    }
+    v
+}
